@@ -103,8 +103,13 @@ def retry_cases(draw, max_nodes):
     cfg = draw(specs.run_configs(nodes=len(spec["nodes"])))
     cfg["retry"] = draw(st.sampled_from([1, 2, 3, 4, "custom", None]))
     cfg["max_errors"] = draw(st.sampled_from([0, None]))
+    # what the failing attempts raise: plain exceptions, or ones that cannot be modified / printed / tested for truth
+    kinds = ["exc", "exc", "val", "frozen", "slots", "falsy", "badstr"]
+    for nd in g.nodes:
+        if nd["k"] == "call" and nd["beh"]["t"] == "raise":
+            nd["beh"]["exc"] = draw(st.sampled_from(kinds))
     return {"fam": "retry", "spec": spec, "cfg": cfg, "registry": use_reg, "flaky_ops": flaky_ops,
-            "sched": draw(harness.schedules())}
+            "flaky_exc": draw(st.sampled_from([None, None] + kinds)), "sched": draw(harness.schedules())}
 
 
 class Latch:
@@ -215,6 +220,7 @@ def check_retry(ctx, case, record):
     if case["registry"]:
         w.init_sources()
     w.flaky_ops = {(k, i): j for k, i, j in case.get("flaky_ops", [])}
+    w.flaky_exc = case.get("flaky_exc")
     n = world.retry_attempts(cfg.get("retry"))
     retry_obj = world.make_retry(cfg.get("retry"))
     kw = {}
@@ -240,7 +246,9 @@ def check_retry(ctx, case, record):
     if record:
         ctx.case(case, bool(recovered), common.sched_classes(case, out) +
                  ["fam:retry", f"retry:{cfg.get('retry')}", "recovered" if recovered else "no_recovery",
-                  "exhausted" if exhausted else "not_exhausted"] + sorted({"flaky:" + k[0] for k in executed_flaky}))
+                  "exhausted" if exhausted else "not_exhausted"] + sorted({"flaky:" + k[0] for k in executed_flaky})
+                 + sorted({"attempt_raises:" + nodes[k[1]]["beh"]["exc"] for k in executed_flaky if k[0] == "call"}
+                          | ({"attempt_raises:" + str(case.get("flaky_exc"))} if any(k[0] != "call" for k in executed_flaky) else set())))
     if out.verdict or out.uncaught:
         ctx.violation(case2, f"scheduler verdict {out.verdict} {out.verdict_info}; uncaught {out.uncaught!r}")
     for k, a in attempts.items():
